@@ -5,4 +5,7 @@ open RaftLog
 #print axioms c16_history_no_panic_partial
 #print axioms c16_read_inverted_empty
 #print axioms c16_truncate_zero_is_error
-#print axioms c16_witness_u64_max
+#print axioms c16_u64_max_is_refused
+#print axioms c16_u64_max_is_refused'
+#print axioms c16_u64_max_is_refused_witness
+#print axioms c16_internal_overflow_branch
